@@ -1,9 +1,314 @@
-//! C14 (placeholder, filled in below)
-use crate::oracle_out::Violation;
+//! C14: the min-cost-flow start solution against an independently computed optimum of the
+//! per-type covering circulation (own successive-shortest-path solver with lexicographic
+//! (vehicles, operating cost) arc costs; lower bounds by the standard excess transformation).
+
+use crate::adapter::Adapter;
+use crate::oracle_out::{viol, Violation};
 use crate::refmodel::*;
+use crate::refstate::{recompute_tour, snap};
+use crate::rng::digest_str;
+use model::json_serialisation::load_rolling_stock_problem_instance_from_json;
 use serde_json::Value;
+use solver::min_cost_flow_solver::MinCostFlowSolver;
 use std::collections::BTreeMap;
 
-pub fn check_c14(_instance: Value, _inst: &RefInstance) -> (Vec<Violation>, bool, BTreeMap<String, u64>, String) {
-    (vec![], false, BTreeMap::new(), String::new())
+type Cost = (i64, i64);
+
+fn add(a: Cost, b: Cost) -> Cost {
+    (a.0 + b.0, a.1 + b.1)
+}
+fn neg(a: Cost) -> Cost {
+    (-a.0, -a.1)
+}
+fn mul(a: Cost, k: i64) -> Cost {
+    (a.0 * k, a.1 * k)
+}
+
+#[derive(Clone)]
+struct Edge {
+    to: usize,
+    cap: i64,
+    cost: Cost,
+    flow: i64,
+}
+
+struct Mcf {
+    g: Vec<Vec<usize>>,
+    e: Vec<Edge>,
+}
+
+impl Mcf {
+    fn new(n: usize) -> Mcf {
+        Mcf { g: vec![vec![]; n], e: vec![] }
+    }
+    fn add_node(&mut self) -> usize {
+        self.g.push(vec![]);
+        self.g.len() - 1
+    }
+    fn add_edge(&mut self, u: usize, v: usize, cap: i64, cost: Cost) -> usize {
+        let id = self.e.len();
+        self.e.push(Edge { to: v, cap, cost, flow: 0 });
+        self.e.push(Edge { to: u, cap: 0, cost: neg(cost), flow: 0 });
+        self.g[u].push(id);
+        self.g[v].push(id + 1);
+        id
+    }
+    /// successive shortest paths (Bellman-Ford), returns (flow, cost)
+    fn min_cost_max_flow(&mut self, s: usize, t: usize) -> (i64, Cost) {
+        let n = self.g.len();
+        let mut total_flow = 0;
+        let mut total_cost = (0, 0);
+        loop {
+            let inf: Cost = (i64::MAX / 4, 0);
+            let mut dist = vec![inf; n];
+            let mut prev: Vec<Option<usize>> = vec![None; n];
+            dist[s] = (0, 0);
+            for _ in 0..n {
+                let mut changed = false;
+                for u in 0..n {
+                    if dist[u] == inf {
+                        continue;
+                    }
+                    for &id in &self.g[u] {
+                        let ed = &self.e[id];
+                        if ed.cap - ed.flow > 0 {
+                            let nd = add(dist[u], ed.cost);
+                            if nd < dist[ed.to] {
+                                dist[ed.to] = nd;
+                                prev[ed.to] = Some(id);
+                                changed = true;
+                            }
+                        }
+                    }
+                }
+                if !changed {
+                    break;
+                }
+            }
+            if dist[t] == inf {
+                break;
+            }
+            // bottleneck
+            let mut b = i64::MAX;
+            let mut v = t;
+            while v != s {
+                let id = prev[v].unwrap();
+                b = b.min(self.e[id].cap - self.e[id].flow);
+                v = self.e[id ^ 1].to;
+            }
+            let mut v = t;
+            while v != s {
+                let id = prev[v].unwrap();
+                self.e[id].flow += b;
+                self.e[id ^ 1].flow -= b;
+                v = self.e[id ^ 1].to;
+            }
+            total_flow += b;
+            total_cost = add(total_cost, mul(dist[t], b));
+        }
+        (total_flow, total_cost)
+    }
+}
+
+pub struct RefOptimum {
+    pub vehicles: i64,
+    pub cost: i64,
+    pub uses_overflow: bool,
+}
+
+/// optimum of the covering circulation of type t; `allot[slot act]` = tracks allotted to t
+pub fn ref_optimum(inst: &RefInstance, t: usize, allot: &BTreeMap<usize, u64>, overflow_leg_seconds: u64) -> Option<RefOptimum> {
+    let acts: Vec<usize> = (0..inst.acts.len())
+        .filter(|&a| match inst.acts[a].kind {
+            ActKind::Service => inst.acts[a].vtype == Some(t),
+            ActKind::Maint => allot.get(&a).copied().unwrap_or(0) > 0,
+        })
+        .collect();
+    let nd = inst.depots.len() + 1; // + overflow
+    let mut m = Mcf::new(0);
+    let ins: Vec<usize> = acts.iter().map(|_| m.add_node()).collect();
+    let outs: Vec<usize> = acts.iter().map(|_| m.add_node()).collect();
+    let dl: Vec<usize> = (0..nd).map(|_| m.add_node()).collect();
+    let dr: Vec<usize> = (0..nd).map(|_| m.add_node()).collect();
+    let ss = m.add_node();
+    let tt = m.add_node();
+    let mut excess = vec![0i64; m.g.len()];
+    let mut fixed_cost: Cost = (0, 0);
+    let c = &inst.costs;
+    let big = 1_000_000i64;
+    let mut act_edges = vec![];
+    for (i, &a) in acts.iter().enumerate() {
+        let act = &inst.acts[a];
+        let dur = (act.end - act.start) as i64;
+        let (lo, hi, unit) = match act.kind {
+            ActKind::Service => (inst.served(a) as i64, act.limit().map(|l| l as i64).unwrap_or(big), dur * c.service as i64),
+            ActKind::Maint => (allot[&a] as i64, allot[&a] as i64, dur * c.maintenance as i64),
+        };
+        if lo > hi {
+            return None;
+        }
+        excess[outs[i]] += lo;
+        excess[ins[i]] -= lo;
+        fixed_cost = add(fixed_cost, (0, unit * lo));
+        act_edges.push(m.add_edge(ins[i], outs[i], hi - lo, (0, unit)));
+    }
+    for (i, &a) in acts.iter().enumerate() {
+        for (j, &b) in acts.iter().enumerate() {
+            if i != j && inst.connectable(a, b) {
+                let (x, y) = (&inst.acts[a], &inst.acts[b]);
+                let travel = inst.tt[x.to][y.from] as i64;
+                let gap = y.start - x.end;
+                let cost = travel * c.dead_head as i64 + (gap - travel).max(0) * c.idle as i64;
+                m.add_edge(outs[i], ins[j], big, (0, cost));
+            }
+        }
+    }
+    let mut depot_edges = vec![];
+    for d in 0..nd {
+        let (cap, loc) = if d < inst.depots.len() {
+            let dep = &inst.depots[d];
+            let cap = dep.cap_for(t);
+            (if cap == UNLIMITED { big } else { cap as i64 }, Some(dep.loc))
+        } else {
+            (big, None)
+        };
+        depot_edges.push(m.add_edge(dl[d], dr[d], cap, (1, 0)));
+        for (i, &a) in acts.iter().enumerate() {
+            let act = &inst.acts[a];
+            let (cs, ce) = match loc {
+                Some(l) => (inst.tt[l][act.from] as i64 * c.dead_head as i64, inst.tt[act.to][l] as i64 * c.dead_head as i64),
+                None => (overflow_leg_seconds as i64 * c.dead_head as i64, overflow_leg_seconds as i64 * c.dead_head as i64),
+            };
+            m.add_edge(dr[d], ins[i], big, (0, cs));
+            m.add_edge(outs[i], dl[d], big, (0, ce));
+        }
+    }
+    let mut need = 0;
+    for v in 0..excess.len() {
+        if excess[v] > 0 {
+            m.add_edge(ss, v, excess[v], (0, 0));
+            need += excess[v];
+        } else if excess[v] < 0 {
+            m.add_edge(v, tt, -excess[v], (0, 0));
+        }
+    }
+    let (f, cost) = m.min_cost_max_flow(ss, tt);
+    if f != need {
+        return None;
+    }
+    let total = add(cost, fixed_cost);
+    let vehicles: i64 = depot_edges.iter().map(|&e| m.e[e].flow).sum();
+    debug_assert_eq!(vehicles, total.0);
+    Some(RefOptimum {
+        vehicles: total.0,
+        cost: total.1,
+        uses_overflow: m.e[depot_edges[nd - 1]].flow > 0,
+    })
+}
+
+pub fn check_c14(instance: Value, inst: &RefInstance) -> (Vec<Violation>, bool, BTreeMap<String, u64>, String) {
+    let mut out = vec![];
+    let mut probes: BTreeMap<String, u64> = BTreeMap::new();
+    let mut bump = |k: &str| *probes.entry(k.to_string()).or_insert(0) += 1;
+    let nw = load_rolling_stock_problem_instance_from_json(instance);
+    let ad = match Adapter::new(inst, nw.clone()) {
+        Ok(a) => a,
+        Err(e) => {
+            out.push(viol("C17", "C17.identity", e));
+            return (out, false, probes, String::new());
+        }
+    };
+    // quantifier: depot totals must not couple the types
+    if inst.types.len() > 1 {
+        for d in &inst.depots {
+            let sum: u128 = (0..inst.types.len()).map(|t| d.cap_for(t) as u128).sum();
+            if d.total != UNLIMITED && sum > d.total as u128 {
+                bump("skipped_types_coupled");
+                return (out, false, probes, String::new());
+            }
+        }
+    }
+    let s = MinCostFlowSolver::initialize(nw.clone()).solve();
+    let sn = snap(&ad, &s);
+    let mut nontrivial = false;
+    let mut digest_src = String::new();
+    if !sn.dummies.is_empty() {
+        out.push(viol("C14", "C14.dummy_tours_in_start_solution", format!("start solution contains dummy tours {:?}", sn.dummies.keys().collect::<Vec<_>>())));
+    }
+    for (t, &vt) in ad.ref_to_type.iter().enumerate() {
+        let tours: Vec<&Vec<model::base_types::NodeIdx>> = sn.vehicles.values().filter(|(x, _)| *x == vt).map(|(_, ns)| ns).collect();
+        // allotment = the repo's own heuristic, read off the observed solution
+        let mut allot: BTreeMap<usize, u64> = BTreeMap::new();
+        let mut cover: BTreeMap<usize, u64> = BTreeMap::new();
+        for ns in &tours {
+            for n in ns.iter() {
+                if let Some(&a) = ad.node_to_act.get(n) {
+                    *cover.entry(a).or_insert(0) += 1;
+                    if inst.acts[a].kind == ActKind::Maint {
+                        *allot.entry(a).or_insert(0) += 1;
+                    }
+                }
+            }
+        }
+        // coverage of the observed solution (every flow unit decoded into exactly one tour)
+        for a in inst.service_acts().filter(|&a| inst.acts[a].vtype == Some(t)) {
+            let k = cover.get(&a).copied().unwrap_or(0);
+            if k < inst.served(a) {
+                out.push(viol("C14", "C14.start_solution_undercovers", format!("{} needs {} vehicles, start solution gives {}", inst.acts[a].id, inst.served(a), k)));
+            }
+            if let Some(l) = inst.acts[a].limit() {
+                if k > l {
+                    out.push(viol("C14", "C14.start_solution_overcovers", format!("{} limited to {} vehicles, start solution gives {}", inst.acts[a].id, l, k)));
+                }
+            }
+        }
+        // circulation: per depot as many tours end as start
+        let mut bal: BTreeMap<DepotRef, i64> = BTreeMap::new();
+        let mut uses_overflow = false;
+        for ns in &tours {
+            if let (Some(a), Some(b)) = (ns.first().and_then(|n| ad.depot_ref_of_node(*n)), ns.last().and_then(|n| ad.depot_ref_of_node(*n))) {
+                *bal.entry(a).or_insert(0) += 1;
+                *bal.entry(b).or_insert(0) -= 1;
+                if a == DepotRef::Overflow || b == DepotRef::Overflow {
+                    uses_overflow = true;
+                }
+            }
+        }
+        if bal.values().any(|b| *b != 0) {
+            out.push(viol("C14", "C14.not_a_circulation", format!("type {}: start/end depot balance of the decoded tours is {:?}", inst.types[t].id, bal)));
+        }
+        let observed_vehicles = tours.len() as i64;
+        let observed_cost: u64 = tours.iter().map(|ns| recompute_tour(&ad, inst, ns).costs).sum();
+        let opt = ref_optimum(inst, t, &allot, ad.conv.leg_seconds);
+        digest_src.push_str(&format!("{}:{}:{};", t, observed_vehicles, observed_cost));
+        match opt {
+            None => {
+                bump("skipped_allotment_infeasible_for_ref");
+            }
+            Some(o) => {
+                bump("types_compared");
+                if o.vehicles != observed_vehicles {
+                    out.push(viol(
+                        "C14",
+                        if observed_vehicles > o.vehicles { "C14.more_vehicles_than_needed" } else { "C14.fewer_vehicles_than_reference_minimum" },
+                        format!("type {}: start solution uses {} vehicles, the reference minimum is {}", inst.types[t].id, observed_vehicles, o.vehicles),
+                    ));
+                } else if !uses_overflow && !o.uses_overflow {
+                    bump("costs_compared");
+                    if observed_cost as i64 != o.cost {
+                        out.push(viol(
+                            "C14",
+                            if observed_cost as i64 > o.cost { "C14.operating_cost_not_minimal" } else { "C14.cost_below_reference_minimum" },
+                            format!("type {}: start solution with {} vehicles costs {}, the reference minimum is {}", inst.types[t].id, observed_vehicles, observed_cost, o.cost),
+                        ));
+                    }
+                }
+                let chained = tours.iter().any(|ns| ns.len() >= 4);
+                if observed_vehicles >= 2 && chained {
+                    nontrivial = true;
+                }
+            }
+        }
+    }
+    (out, nontrivial, probes, digest_str(&digest_src))
 }
